@@ -241,9 +241,27 @@ func init() {
 			}
 			return n
 		},
+		// vYield: a voluntary yield (e.g. a slow backend call): any other goroutine or timer may run
+		// first; this does not count against the preemption bound.
 		"vYield": func(w *Worker, fr *frame, fn *ssa.Function, args []value) value {
-			w.sched.point(fr.g, "yield")
-			return nil
+			s := &w.sched
+			for {
+				others := s.runnable(fr.g)
+				timers := s.armedTimers()
+				n := 1 + len(others) + len(timers)
+				if n == 1 {
+					return nil
+				}
+				k := w.choose(n, "yield")
+				if k == 0 {
+					return nil
+				}
+				if k <= len(others) {
+					s.switchTo(fr.g, others[k-1])
+					return nil
+				}
+				s.fire(timers[k-1-len(others)])
+			}
 		},
 		// vSettle lets every other goroutine run until all of them are blocked or finished.
 		"vSettle": func(w *Worker, fr *frame, fn *ssa.Function, args []value) value {
@@ -321,13 +339,18 @@ func (w *Worker) assumeTerm(c *Term) {
 		w.assertPC(c)
 		return
 	}
-	res, _ := w.solver.Check(c, nil)
+	if w.model != nil && c.Eval(w.model, map[int32]uint64{}) != 0 {
+		w.assertPC(c) // the cached model witnesses feasibility
+		return
+	}
+	res, m := w.solver.Check(c, w.nondetVars())
 	switch res {
 	case Unsat:
 		w.endPath("assume", "")
 	case Unknown:
 		w.endPath("unsupported", "solver unknown at assume")
 	}
+	w.model = m
 	w.assertPC(c)
 }
 
@@ -967,6 +990,22 @@ func init() {
 	S["(*time.Timer).Reset"] = reset
 	S["(*time.Ticker).Reset"] = reset
 
+	// context.WithValue checks comparability through reflectlite (unsafe); build the valueCtx directly
+	S["context.WithValue"] = func(w *Worker, fr *frame, fn *ssa.Function, args []value) value {
+		parent, key := args[0].(iface), args[1].(iface)
+		if parent.t == nil {
+			panic(targetPanic{w.runtimeError("cannot create context from nil parent")})
+		}
+		if key.t == nil {
+			panic(targetPanic{w.runtimeError("nil key")})
+		}
+		if !types.Comparable(key.t) {
+			panic(targetPanic{w.runtimeError("key is not comparable")})
+		}
+		cell := value(structure{parent, key, args[2]})
+		return iface{t: types.NewPointer(w.namedType("context", "valueCtx")), v: &cell}
+	}
+
 	// errors
 	S["errors.Is"] = func(w *Worker, fr *frame, fn *ssa.Function, args []value) value {
 		return w.errorsIs(fr, args[0].(iface), args[1].(iface), 0)
@@ -1162,11 +1201,44 @@ func (w *Worker) sortSlice(fr *frame, s []value, less value) {
 
 func (w *Worker) bitsLen(x value, wd int) value {
 	if t, ok := x.(*Term); ok {
-		// ite chain: len = position of highest set bit + 1
-		acc := w.tt.Const(64, 0)
-		for i := 0; i < wd; i++ {
-			bit := w.tt.Extract(t, i, i)
-			acc = w.tt.Ite(w.tt.Eq(bit, w.tt.Const(1, 1)), w.tt.Const(64, uint64(i+1)), acc)
+		// ite chain: len = position of highest set bit + 1.  Shorten the chain when the path
+		// condition bounds the operand (lengths are assumed small by the harnesses).
+		if !w.inPrefix() || true {
+			for _, k := range []int{10, 16, 32} {
+				if k >= wd {
+					break
+				}
+				key := fmt.Sprintf("lenbound:%d:%d", t.ID, k)
+				implied, seen := w.boundCache[key]
+				if !seen {
+					res, _ := w.solver.Check(w.tt.Not(w.tt.Cmp(OpULt, t, w.tt.Const(t.W, uint64(1)<<uint(k)))), nil)
+					implied = res == Unsat
+					w.boundCache[key] = implied
+				}
+				if implied {
+					wd = k
+					break
+				}
+			}
+		}
+		// comparison chain (friendlier to the solvers than bit extraction):
+		//   Len(x) = 0 if x < 1, 1 if x < 2, 2 if x < 4, ...
+		// Len(y|1) = max(1, Len(y)): peephole for the generated varint-size code.
+		minLen := uint64(0)
+		if t.Op == OpBOr && t.A[1].Op == OpConst && t.A[1].C == 1 {
+			t = t.A[0]
+			minLen = 1
+		} else if t.Op == OpBOr && t.A[0].Op == OpConst && t.A[0].C == 1 {
+			t = t.A[1]
+			minLen = 1
+		}
+		acc := w.tt.Const(64, uint64(wd))
+		for k := wd - 1; k >= 0; k-- {
+			v := uint64(k)
+			if v < minLen {
+				v = minLen
+			}
+			acc = w.tt.Ite(w.tt.Cmp(OpULt, t, w.tt.Const(t.W, uint64(1)<<uint(k))), w.tt.Const(64, v), acc)
 		}
 		return lower(types.Typ[types.Int], acc)
 	}
